@@ -77,6 +77,7 @@ def Ev.structural (s : State) : Ev → Bool
   | .crash => true
   | .restart => true
   | .reset _ => true
+  | .killed _ => true      -- a job dies without a trace (with mrp, or lost by the scheduler)
   | _ => false
 
 /-- the failure events (a job or mrp reports an error) -/
@@ -89,9 +90,60 @@ def Ev.failing : Ev → Bool
 /-- no failure, no structure change, no interruption -/
 def Ev.quiet (s : State) (e : Ev) : Bool := !e.failing && !e.structural s
 
-/-- an event that makes progress: quiet, enabled, and the measure goes down -/
+/-- no failure event, and the chunk structure of a fork is not redefined while mrp
+re-attaches (the model keeps `nchunks` across `restart`; `Fork.restoreChunks`) -/
+def Ev.benign (s : State) (e : Ev) : Bool :=
+  !e.failing &&
+  match e with
+  | .mkchunks _ _ _ => !(s.phase == .loading && s.inc != 0)
+  | _ => true
+
+
+/-- the scheduler / job / journal alphabet: what mrp's run loop, a running job and the
+journal reader do by themselves — refresh a node's cached state, end the loading phase,
+submit a job, write a stub or fork `_complete`, define the chunks once the split is
+complete, a job starts (`_log`), a job ends successfully, a `_complete` is read.  NOT in
+it: the environment's choices (`fork`, `forkorder`, `W … disabled`, chunk counts while
+loading), failures, interruptions, and the stuttering events. -/
+def Ev.sched (s : State) : Ev → Bool
+  | .nodestate _ _ => true
+  | .refresh => s.phase == Phase.loading
+  | .launch _ => true
+  | .W _ x => x == Sentinel.complete
+  | .mkchunks _ _ _ => s.phase == Phase.normal
+  | .joblog _ => true
+  | .jobend _ x => x == Sentinel.complete
+  | .R _ x => x == Sentinel.complete
+  | _ => false
+
+/-- an event that makes progress: of the scheduler/job/journal alphabet, enabled, and the
+measure goes down -/
 def Progress (s : State) (e : Ev) : Prop :=
-  e.quiet s = true ∧ enabled s e = true ∧ LexLt (mu (apply s e)) (mu s)
+  e.sched s = true ∧ enabled s e = true ∧ LexLt (mu (apply s e)) (mu s)
+
+/-- nothing of the scheduler/job/journal alphabet can happen (decidable; `no_progress_of_quiescent`):
+normal phase, every cached node state current, no live job, every `_complete` on disk is read,
+no job can be submitted, no stub / fork `_complete` written, no chunks defined -/
+def quiescent (s : State) : Bool :=
+  s.phase == Phase.normal && allFresh s && s.alive.isEmpty &&
+  ((objs s).all fun o =>
+    (!(s.m o).disk.complete || (s.m o).seen.complete) && !launchOk s o &&
+    !mrpWriteOk s o .complete) &&
+  ((forkPairs s).all fun p => !enabled s (.mkchunks p.1 p.2 1))
+
+/-- `Ev.node e = some n`: `e` is an event of node `n` -/
+def Ev.node : Ev → Option Nat
+  | .W o _ | .R o _ | .D o _ | .U o _ | .launch o | .joblog o | .jobend o _
+  | .silentfail o | .killed o | .reset o => some o.n
+  | .fork n _ | .forkorder n _ | .mkchunks n _ _ | .nodestate n _ => some n
+  | _ => none
+
+/-- every submitted, unfinished job of node `n` is alive (none died without being reset) -/
+def AliveNode (s : State) (n : Nat) : Prop :=
+  ∀ f r, r ≠ Role.fork → (s.m ⟨n, f, r⟩).disk.has .jobinfo = true →
+    (s.m ⟨n, f, r⟩).disk.has .complete = false → (⟨n, f, r⟩ : Obj) ∈ s.alive
+
+def AliveInv (s : State) : Prop := ∀ n, AliveNode s n
 
 /-- the pipestance is complete (`Pipestance.GetState() == Complete` and nothing
 left to do): every node finished, every cached node state current -/
